@@ -225,10 +225,14 @@ class Session:
 
     def permute(self, k, seed):
         g = self.objs[k]
+        if k in getattr(self, "_hung", set()):
+            return None                      # this call already failed to return once: reported, not repeated
         before = project(g)
         try:
-            res = guarded(lambda: tgu.permute_molecule(g, random_seed=seed), 20)
+            res = guarded(lambda: tgu.permute_molecule(g, random_seed=seed), 6)
         except BaseException as ex:  # noqa
+            if isinstance(ex, CallTimeout):
+                self._hung = getattr(self, "_hung", set()) | {k}
             self.ev.append({"op": "raised", "call": "permute_molecule", "arg": k,
                             "clause": ("C16:permute_molecule-did-not-return" if isinstance(ex, CallTimeout)
                                        else "C16:permute_molecule-raised-" + type(ex).__name__)})
